@@ -1,5 +1,28 @@
 // part (a): in-process round trips and correspondence (included into c19.rs)
 
+/// every serde_json route: text, pretty text, bytes (slice and reader), writer, `Value`
+fn serde_paths<T: serde::Serialize + serde::de::DeserializeOwned>(v: &T) -> Vec<(&'static str, Result<T, String>)> {
+    fn run<T>(f: impl FnOnce() -> Result<T, serde_json::Error>) -> Result<T, String> {
+        match guarded(f) {
+            Ok(Ok(x)) => Ok(x),
+            Ok(Err(e)) => Err(format!("error {e}")),
+            Err(()) => Err("panic".to_string()),
+        }
+    }
+    vec![
+        ("to_string/from_str", run(|| serde_json::to_string(v).and_then(|s| serde_json::from_str::<T>(&s)))),
+        ("to_string_pretty/from_str", run(|| serde_json::to_string_pretty(v).and_then(|s| serde_json::from_str::<T>(&s)))),
+        ("to_vec/from_slice", run(|| serde_json::to_vec(v).and_then(|b| serde_json::from_slice::<T>(&b)))),
+        ("to_vec_pretty/from_reader", run(|| serde_json::to_vec_pretty(v).and_then(|b| serde_json::from_reader::<_, T>(&b[..])))),
+        ("to_writer/from_reader", run(|| {
+            let mut buf = Vec::new();
+            serde_json::to_writer(&mut buf, v)?;
+            serde_json::from_reader::<_, T>(std::io::Cursor::new(buf))
+        })),
+        ("to_value/from_value", run(|| serde_json::to_value(v).and_then(serde_json::from_value::<T>))),
+    ]
+}
+
 // ---------------------------------------------------------------------------------------------
 // A1: FaceAttrs operator programs
 
@@ -51,7 +74,8 @@ fn run_attr_program(prog: &str) -> Option<(Vec<FaceAttrs>, String)> {
                 }
             }
         };
-        shown.push(attrs_bits(v).to_string());
+        // the raw word (not what the accessors show) goes to the model
+        shown.push(attrs_raw(v).to_string());
         vals.push(v);
     }
     Some((vals, shown.join(",")))
@@ -78,26 +102,19 @@ fn gen_attr_program(rng: &mut Rng, len: usize) -> String {
 fn face_round_trip(face: &Face) -> Result<(), (String, String)> {
     let s = guarded(|| face.to_string()).map_err(|_| ("Display".to_string(), "panic".to_string()))?;
     match guarded(|| s.parse::<Face>()) {
-        Ok(Ok(f)) if f == *face => {}
+        Ok(Ok(f)) if face_raw(&f) == face_raw(face) => {}
         Ok(Ok(f)) => return Err((format!("text {s:?}"), format!("parsed back as {}", face_wire(&f)))),
         Ok(Err(e)) => return Err((format!("text {s:?}"), format!("parse error {e}"))),
         Err(()) => return Err((format!("text {s:?}"), "FromStr panicked".to_string())),
     }
-    let js = match guarded(|| serde_json::to_string(face)) {
-        Ok(Ok(js)) => js,
-        Ok(Err(e)) => return Err(("serde_json::to_string".to_string(), format!("error {e}"))),
-        Err(()) => return Err(("serde_json::to_string".to_string(), "panic".to_string())),
-    };
-    match guarded(|| serde_json::from_str::<Face>(&js)) {
-        Ok(Ok(f)) if f == *face => {}
-        Ok(Ok(f)) => return Err((format!("json {js}"), format!("deserialised as {}", face_wire(&f)))),
-        Ok(Err(e)) => return Err((format!("json {js}"), format!("error {e}"))),
-        Err(()) => return Err((format!("json {js}"), "from_str panicked".to_string())),
+    for (route, r) in serde_paths(face) {
+        match r {
+            Ok(f) if face_raw(&f) == face_raw(face) => {}
+            Ok(f) => return Err((route.to_string(), format!("deserialised as {}", face_wire(&f)))),
+            Err(e) => return Err((route.to_string(), e)),
+        }
     }
-    match guarded(|| serde_json::to_value(face).and_then(serde_json::from_value::<Face>)) {
-        Ok(Ok(f)) if f == *face => Ok(()),
-        other => Err(("to_value/from_value".to_string(), format!("{:?}", other.map(|r| r.map(|f| face_wire(&f)).map_err(|e| e.to_string()))))),
-    }
+    Ok(())
 }
 
 fn attr_case(ctx: &mut Ctx, prog: &str) {
@@ -111,7 +128,8 @@ fn attr_case(ctx: &mut Ctx, prog: &str) {
     ctx.out.hist("attrs-program");
     for (i, v) in vals.iter().enumerate() {
         // canonical = equal to the value rebuilt from what it shows
-        let canonical = attrs_of_bits(attrs_bits(*v)) == *v;
+        // raw word = what the accessors show (and `==` agrees with the raw comparison)
+        let canonical = attrs_raw(*v) == attrs_bits(*v) as u64 && (attrs_of_bits(attrs_bits(*v)) == *v);
         let face = Face::new(None, None, *v);
         let rt = face_round_trip(&face);
         if !canonical || rt.is_err() {
@@ -437,7 +455,7 @@ fn size_case(ctx: &mut Ctx, s: Size) {
     match &js {
         Ok(Ok(js)) => {
             let back = guarded(|| serde_json::from_str::<Size>(js).map_err(|e| e.to_string()));
-            if back != Ok(Ok(s)) {
+            if !matches!(&back, Ok(Ok(b)) if (b.height, b.width) == (s.height, s.width)) {
                 ctx.out.fail("Size does not survive serde_json", input.clone(), json!(format!("{s:?}")), json!(format!("{js} -> {back:?}")));
             }
             // the serialised form is what the model's `Size.ser` says: a map height, width
@@ -451,15 +469,20 @@ fn size_case(ctx: &mut Ctx, s: Size) {
         }
         other => ctx.out.fail("Size serialisation failed", input.clone(), json!("json"), json!(format!("{other:?}"))),
     }
+    for (route, r) in serde_paths(&s) {
+        if !matches!(&r, Ok(b) if (b.height, b.width) == (s.height, s.width)) {
+            ctx.out.fail("Size does not survive serde_json", json!({"kind": "size", "height": s.height.to_string(), "width": s.width.to_string(), "route": route}), json!(format!("{} x {}", s.height, s.width)), json!(format!("{r:?}")));
+        }
+    }
     let via_value = guarded(|| serde_json::to_value(s).and_then(serde_json::from_value::<Size>).map_err(|e| e.to_string()));
-    if via_value != Ok(Ok(s)) {
+    if !matches!(&via_value, Ok(Ok(b)) if (b.height, b.width) == (s.height, s.width)) {
         ctx.out.fail("Size does not survive to_value/from_value", input.clone(), json!(format!("{s:?}")), json!(format!("{via_value:?}")));
     }
     // text form
     let printed = s.to_string();
     ctx.out.corr(&format!("c19 size print {} {}", s.height, s.width), &cps(&printed));
     let back = guarded(|| printed.parse::<Size>().map_err(|e| e.to_string()));
-    if back != Ok(Ok(s)) {
+    if !matches!(&back, Ok(Ok(b)) if (b.height, b.width) == (s.height, s.width)) {
         ctx.out.fail("Size Display does not parse back", input, json!(format!("{s:?}")), json!(format!("{printed:?} -> {back:?}")));
     }
     ctx.out.case(&format!("size {} {}", s.height, s.width), s.height > 1 || s.width > 1);
